@@ -22,3 +22,114 @@ Proof.
   intros [->|[->|[q [-> H]]]]; unfold gen_weights, gen_core; try reflexivity.
   apply Qltb_lt in H. now rewrite H.
 Qed.
+
+Lemma Qeqb_true x y : Qeq_bool x y = true <-> x == y.
+Proof. apply Qeq_bool_iff. Qed.
+Lemma Qeqb_false x y : Qeq_bool x y = false <-> ~ x == y.
+Proof.
+  split; intros H.
+  - intros E. apply Qeq_bool_iff in E. congruence.
+  - destruct (Qeq_bool x y) eqn:E; [|reflexivity]. apply Qeq_bool_iff in E. contradiction.
+Qed.
+
+(* ---------- keys ---------- *)
+Lemma key_eqb_refl k : key_eqb k k = true.
+Proof. apply list_beq_refl. apply Nat.eqb_refl. Qed.
+
+Lemma key_eqb_eq a b : key_eqb a b = true <-> a = b.
+Proof.
+  split; [|intros ->; apply key_eqb_refl].
+  apply list_beq_eq. intros x y H. now apply Nat.eqb_eq.
+Qed.
+
+Lemma key_eqb_neq a b : key_eqb a b = false <-> a <> b.
+Proof.
+  split; intros H.
+  - intros E. apply key_eqb_eq in E. congruence.
+  - destruct (key_eqb a b) eqn:E; [|reflexivity]. apply key_eqb_eq in E. contradiction.
+Qed.
+
+Lemma NoDup_remove_inv_end {A} (l : list A) x : NoDup l -> ~ In x l -> NoDup (l ++ [x]).
+Proof.
+  induction l as [|y r IH]; simpl; intros ND NI.
+  - constructor; [tauto|constructor].
+  - inversion ND; subst. constructor.
+    + rewrite in_app_iff. simpl. intros [H|[H|[]]]; [tauto|]. apply NI. now left.
+    + apply IH; auto.
+Qed.
+
+(* ---------- dicts ---------- *)
+Section Dict.
+Context {V : Type}.
+Implicit Types d : list (key * V).
+
+Lemma dget_dset_same d k v : dget (dset d k v) k = Some v.
+Proof.
+  induction d as [|[k' v'] r IH]; simpl.
+  - now rewrite key_eqb_refl.
+  - destruct (key_eqb k k') eqn:E; simpl; rewrite E; auto.
+Qed.
+
+Lemma dget_dset_other d k k' v : k <> k' -> dget (dset d k v) k' = dget d k'.
+Proof.
+  intros N. induction d as [|[k2 v2] r IH]; simpl.
+  - assert (key_eqb k' k = false) as -> by (apply key_eqb_neq; congruence). reflexivity.
+  - destruct (key_eqb k k2) eqn:E; simpl.
+    + apply key_eqb_eq in E; subst k2.
+      assert (key_eqb k' k = false) as -> by (apply key_eqb_neq; congruence). reflexivity.
+    + destruct (key_eqb k' k2); auto.
+Qed.
+
+Lemma dget_dset d k k' v : dget (dset d k v) k' = if key_eqb k k' then Some v else dget d k'.
+Proof.
+  destruct (key_eqb k k') eqn:E.
+  - apply key_eqb_eq in E; subst. apply dget_dset_same.
+  - apply key_eqb_neq in E. now apply dget_dset_other.
+Qed.
+
+Lemma dget_In d k v : dget d k = Some v -> In (k, v) d.
+Proof.
+  induction d as [|[k' v'] r IH]; simpl; [discriminate|].
+  destruct (key_eqb k k') eqn:E.
+  - apply key_eqb_eq in E; subst. intros [= ->]. now left.
+  - intros H. right. auto.
+Qed.
+
+Lemma dget_None_notin d k : dget d k = None -> ~ In k (map fst d).
+Proof.
+  induction d as [|[k' v'] r IH]; simpl; [tauto|].
+  destruct (key_eqb k k') eqn:E; [discriminate|].
+  apply key_eqb_neq in E. intros H [F|F]; [congruence|]. now apply IH.
+Qed.
+
+Lemma In_dget_NoDup d k v : NoDup (map fst d) -> In (k, v) d -> dget d k = Some v.
+Proof.
+  induction d as [|[k' v'] r IH]; simpl; [tauto|].
+  intros ND [E|I].
+  - inversion E; subst. now rewrite key_eqb_refl.
+  - inversion ND as [|? ? Hn ND']; subst.
+    destruct (key_eqb k k') eqn:E.
+    + apply key_eqb_eq in E; subst. exfalso. apply Hn. now apply (in_map fst) in I.
+    + auto.
+Qed.
+
+Lemma dset_fresh d k v : dget d k = None -> dset d k v = d ++ [(k, v)].
+Proof.
+  induction d as [|[k' v'] r IH]; simpl; [reflexivity|].
+  destruct (key_eqb k k'); [discriminate|]. intros H. now rewrite IH.
+Qed.
+
+Lemma dset_keys_present d k v v0 : dget d k = Some v0 -> map fst (dset d k v) = map fst d.
+Proof.
+  induction d as [|[k' v'] r IH]; simpl; [discriminate|].
+  destruct (key_eqb k k') eqn:E; simpl; [reflexivity|]. intros H. now rewrite IH.
+Qed.
+
+Lemma dset_NoDup d k v : NoDup (map fst d) -> NoDup (map fst (dset d k v)).
+Proof.
+  intros ND. destruct (dget d k) as [v0|] eqn:E.
+  - now rewrite (dset_keys_present _ _ _ _ E).
+  - rewrite (dset_fresh _ _ _ E), map_app. simpl.
+    apply NoDup_remove_inv_end; auto. now apply dget_None_notin.
+Qed.
+End Dict.
